@@ -1738,6 +1738,8 @@ func (idx *MergeSetIndex) WriteDeleteTsids(tsids []uint64) error {
 		newDeleted := curDeleted.Clone()
 		newDeleted.AddMulti(tsids)
 		idx.deletedTSIDs.Store(newDeleted)
+		// tag filter results cached before the drop may hold the deleted ids
+		invalidateTagCache()
 	} else {
 		return errors.New("curDeleted must be *uint64set.Set")
 	}
